@@ -123,7 +123,9 @@ def django_bases():
 
 
 def join_count(sql, table):
-    return len(re.findall(r"JOIN\s+\"?%s\"?(?:\s|$)" % table, sql, flags=re.I))
+    # (joins of an anonymous alias - `JOIN country AS country_1` - are the mapper's own eager
+    # loading of a lazy="joined" relationship: they serve the entity, not the filter)
+    return len(re.findall(r"JOIN\s+\"?%s\"?(?!\s+AS\s+\"?%s_\d+)(?:\s|$)" % (table, table), sql, flags=re.I))
 
 
 def rels_used(t):
